@@ -19,7 +19,8 @@ noncomputable section
 theorem mt_complete {ray : Ray ℝ} {v0 v1 v2 : V3 ℝ} {t u v : ℝ}
     (hpt : ray.project t = v0 + (v1 - v0).smul u + (v2 - v0).smul v)
     (hu : 0 ≤ u) (hv : 0 ≤ v) (huv : u + v ≤ 1) (ht : (tiny100 : ℝ) < t)
-    (hdet : (tiny100 : ℝ) ≤ |(v1 - v0).dot (ray.direction.cross (v2 - v0))|) :
+    (hdet : (tiny100 : ℝ) * (v1 - v0).length * (ray.direction.cross (v2 - v0)).length
+      < |(v1 - v0).dot (ray.direction.cross (v2 - v0))|) :
     intersectTriangle ray v0 v1 v2 = some (ray.project t, u, v) := by
   have tp := tiny_pos
   obtain ⟨a, ha⟩ : ∃ a, a = (v1 - v0).dot (ray.direction.cross (v2 - v0)) := ⟨_, rfl⟩
@@ -27,8 +28,12 @@ theorem mt_complete {ray : Ray ℝ} {v0 v1 v2 : V3 ℝ} {t u v : ℝ}
   obtain ⟨sv, hsv⟩ : ∃ sv, sv = ray.direction.dot ((ray.origin - v0).cross (v1 - v0)) := ⟨_, rfl⟩
   obtain ⟨st, hst⟩ : ∃ st, st = (v2 - v0).dot ((ray.origin - v0).cross (v1 - v0)) := ⟨_, rfl⟩
   rw [← ha] at hdet
+  have hL1 : 0 ≤ (v1 - v0).length := by simp only [V3.length, real_sqrt]; exact Real.sqrt_nonneg _
+  have hL2 : 0 ≤ (ray.direction.cross (v2 - v0)).length := by simp only [V3.length, real_sqrt]; exact Real.sqrt_nonneg _
+  have hτ : 0 ≤ (tiny100 : ℝ) * (v1 - v0).length * (ray.direction.cross (v2 - v0)).length :=
+    mul_nonneg (mul_nonneg tp.le hL1) hL2
   have hane : a ≠ 0 := by
-    intro h0; rw [h0] at hdet; simp at hdet; linarith
+    intro h0; rw [h0] at hdet; simp only [abs_zero] at hdet; linarith
   -- Cramer: the computed coordinates are the given ones
   have key : su = u * a ∧ sv = v * a ∧ st = t * a := by
     obtain ⟨⟨ox, oy, oz⟩, ⟨dx, dy, dz⟩⟩ := ray
@@ -50,10 +55,9 @@ theorem mt_complete {ray : Ray ℝ} {v0 v1 v2 : V3 ℝ} {t u v : ℝ}
   simp only []
   rw [← ha, ← hsu, ← hsv, ← hst]
   generalize (tiny100 : ℝ) = tiny at *
-  have c1 : (a >. -tiny && a <. tiny) = false := by
+  have c1 : (|a| <=. tiny * (v1 - v0).length * (ray.direction.cross (v2 - v0)).length) = false := by
     bool_real; num_real
-    intro h1
-    rcases abs_cases a with ⟨h, _⟩ | ⟨h, _⟩ <;> linarith
+    exact hdet
   have c2 : (!((0:ℝ) <=. u && u <=. (1:ℝ))) = false := by
     bool_real; exact ⟨hu, by linarith⟩
   have c3 : (!((0:ℝ) <=. v && v <=. (1:ℝ)) || (u + v) >. (1:ℝ)) = false := by
